@@ -141,8 +141,26 @@ theorem code_tables_as_modelled :
     Generated.C05.likeTestAssignsErrMsg = true ∧ Generated.C05.likeTestAssignsErrFld = true ∧
     Generated.C05.fiterNextResetsValid = true ∧ Generated.C05.fiterSetBackwardResetsValid = true ∧
     Generated.C05.fiterValidIsFltAndRange = true ∧
-    Generated.C05.fiterRangeCheck = "Timestamp>=MinTs&&Timestamp<=MaxTs" := by decide
+    Generated.C05.fiterRangeCheck = "Timestamp>=MinTs&&Timestamp<=MaxTs" ∧
+    Generated.C05.tsNumericFallback = "ParseInt(_,10,64);Unix(0,v)" := by decide
 
+
+/-- **A numeric time literal is compared as the exact integer written.** With an environment that reads numeric literals
+exactly (`NumericExact`: the code's last fallback is `strconv.ParseInt(dt, 10, 64)` handed unchanged to `time.Unix(0, v)`
+— regenerated fact `tsNumericFallback` in `code_tables_as_modelled`; the harness checks every literal against the exact
+value), the filter built for `[NOT] ts <op> <number>` is the integer comparison of the event's timestamp with that
+number — at nanosecond magnitudes, at the int64 extremes, everywhere. -/
+theorem ts_numeric_literal_exact (env : Env) (hx : NumericExact env) (n : Bool) (c : Cond) (o : TsOp) (i : Int) (f : Pred)
+    (hs : subjectOf env c.ident = .ts) (ho : tsOpOf c.op = some o) (hi : decimalInt c.value = some i)
+    (hb : buildWhere env (some (.cons (.cons (.cond n c) .nil) .nil)) = .ok f) :
+    ∀ ev : Event, Fields.WF ev.fields → f ev = (n != evalTsOp o ev.ts i) := by
+  intro ev hev
+  rw [where_correct env _ f hb (by simp [wellFormed, wellFormedAnd, wellFormedX]) ev hev]
+  simp [evalRef, evalAnd, evalX, condRef, hs, hx _ _ hi, ho]
+
+/-- the SPEC environment of the driver is exact by construction -/
+theorem exactEnv_numericExact (env : Env) : NumericExact (exactEnv env) := by
+  intro v i h; simp [exactEnv, h]
 
 /-! ### the parser in front of the evaluator (C12's direct recursive-descent parser `Lql.dExpr`, token level) -/
 
@@ -367,5 +385,10 @@ example : ∃ e, Lql.dExpr 40 (Lql.toksCond cA ++ Lql.tAND :: (Lql.toksCond cB +
 /-- `a*[` is malformed for every name although its first chunk matches; `*[a-c]x*` is accepted by the probe -/
 example : PathMatch.pathMatch [97, 42, 91] [97] = none ∧ PathMatch.pathMatch [97, 42, 91] [98] = none ∧
     patternOk [42, 91, 97, 45, 99, 93, 120, 42] = true := by decide
+
+/-- nanosecond magnitude and the int64 extremes are read exactly -/
+example : decimalInt [49,53,53,50,51,48,55,54,56,51,49,50,51,52,53,54,55,56,57] = some 1552307683123456789 ∧
+    decimalInt [45,57,50,50,51,51,55,50,48,51,54,56,53,52,55,55,53,56,48,56] = some (-9223372036854775808) ∧
+    decimalInt [57,50,50,51,51,55,50,48,51,54,56,53,52,55,55,53,56,48,56] = none ∧ decimalInt [32,49,48,32] = some 10 := by decide
 
 end Logrange.Props.C05
